@@ -197,13 +197,14 @@ class Builder(object):
         return nc, [(x.name, x.octave) for x in nc.notes]
 
     def bar(self, key, meter, entries, rest_as_empty_container=False):
-        """entries: [(notes or None, spec, number)].  Entries that do not fit the meter are skipped.
-        -> (Bar, model)"""
+        """entries: [(notes, spec, number)]; notes None = place_rest, [] = an empty NoteContainer (also a rest).
+        Entries that do not fit the meter are skipped.  -> (Bar, model)"""
         b = self.Bar(key, meter)
         model = {"key": key, "meter": tuple(meter), "entries": []}
         for (notes, spec, number) in entries:
-            if notes is None:
-                ok = b.place_notes(self.NoteContainer(), number) if rest_as_empty_container else b.place_rest(number)
+            if notes is None or len(notes) == 0:
+                as_empty = rest_as_empty_container or notes is not None
+                ok = b.place_notes(self.NoteContainer(), number) if as_empty else b.place_rest(number)
                 held = None
             else:
                 nc, held = self.container(notes)
@@ -375,10 +376,9 @@ class LyCheck(object):
                                                                                  and "opus" not in h):
                 bad.append(("subtitle", cm["subtitle"], (h.get("subtitle"), h.get("opus"))))
             if bad:
-                # known region: a field with '"' or '\' decodes differently because it is not escaped
-                known = quoted and all(('"' in w or "\\" in w) or any(('"' in q or "\\" in q) for q in quoted) for (_, w, _) in bad)
+                # known region: some field holds '"' or '\', which is pasted unescaped and shifts / alters the strings
                 R.fail(group, "ly-header-title-author-subtitle", "header fields (field, given, decoded): %r" % (bad,), inputs,
-                       finding="ly-header-string-not-escaped" if known else None)
+                       finding="ly-header-string-not-escaped" if quoted else None)
         if len(sc.blocks) != len(cm["tracks"]):
             if quoted:
                 return
@@ -402,7 +402,7 @@ class XmlCheck(object):
         try:
             return fn(obj)
         except TypeError as e:
-            if any(len(b["entries"]) == 0 for b in bars):
+            if any(len(b["entries"]) == 0 for b in bars) and "NoneType" in str(e):
                 R.fail(group, "xml-one-numbered-measure-per-bar", "composition with an empty bar: TypeError: %s" % e, inputs,
                        finding="xml-empty-bar-typeerror")
             else:
@@ -556,6 +556,8 @@ class XmlCheck(object):
                 R.fail(group, "xml-dots", "%s entry %d: %d dots written as %d <dot/>" % (what, ei, d, g["dots"]), inputs,
                        finding="xml-multiple-dots-collapsed" if (d >= 2 and g["dots"] == 1) else None)
         # duration / divisions = length in quarter notes
+        if not exp:
+            return
         has_long = any(e["spec"][0] < 1 for e in bm["entries"])
         try:
             div = num(at["divisions"])
@@ -600,7 +602,7 @@ def rnd_entry(rnd, V, specs=SPECS, rest_p=0.2):
     spec = rnd.choice(specs)
     number = rnd.choice(spec_forms(spec, V))
     if rnd.random() < rest_p:
-        return (None, spec, number)
+        return (None if rnd.random() < 0.6 else [], spec, number)
     k = rnd.choice((1, 1, 1, 2, 3, 3, 4, 5))
     return (rnd_notes(rnd, k), spec, number)
 
@@ -628,15 +630,30 @@ SHORT_SPECS = [s for s in SPECS if s[0] >= 1]
 PLAIN_SPECS = [s for s in SPECS if s[0] >= 1 and s[1] == 0 and s[2] == (1, 1)]
 
 
+def _fixed_ids():
+    import json
+    import os
+    from bounded.drv import VERIF
+    try:
+        with open(os.path.join(VERIF, "known_findings.json")) as f:
+            return set(x.get("id") for x in json.load(f).get("fixed", []) if x.get("id"))
+    except (OSError, ValueError):
+        return set()
+
+
 # ------------------------------------------------------------------------------------------------ run
 def run(tier, seed):
     import mingus.extra.lilypond as L
     import mingus.extra.musicxml as X
     R = Recorder("C19", tier, seed)
+    # proposed findings count as known until they are copied into known_findings.json (ids recorded there as
+    # fixed are not re-proposed, so a regression of a fixed deviation is reported as a violation)
+    fixed_ids = _fixed_ids()
     for f in PROPOSED_FINDINGS:
-        R.known.append(f) if f["id"] not in [k.get("id") for k in R.known] else None
+        R.known.append(f) if f["id"] not in [k.get("id") for k in R.known] and f["id"] not in fixed_ids else None
     rnd = random.Random(seed)
     quick = tier == "quick"
+    N_NC, N_BAR, N_TRACK, N_COMP, N_WRAP = (1500, 4000, 1500, 700, 100) if quick else (30000, 80000, 30000, 22000, 2500)
     B = Builder()
     V = B.V
     LY = LyCheck(R)
@@ -708,7 +725,7 @@ def run(tier, seed):
             nc_case([(name, o)], None, None, True)
             other = ("G", 8) if o < 5 else ("D", 0)
             nc_case([(name, o), other], None, None, False)
-    for _ in range(300 if quick else 6000):  # random chords of 1-5 notes with random values
+    for _ in range(N_NC):  # random chords of 1-5 notes with random values
         k = rnd.randint(1, 5)
         spec = rnd.choice(SPECS)
         nc_case(rnd_notes(rnd, k), spec, rnd.choice(spec_forms(spec, V)), rnd.random() < 0.5)
@@ -750,8 +767,9 @@ def run(tier, seed):
             bar_case(("a", m, [([("Bb", 2), ("D", 3), ("F##", 4)], spec, number)]), False, True)
             bar_case(("Eb", m, [(None, spec, number)]), True, False)
             bar_case(("f#", m, [(None, spec, number)]), False, False, rest_as_empty=True)
-    base_pairs = [(Fraction(4), Fraction(8)), (Fraction(1, 2), Fraction(16)), (Fraction(128), Fraction(1))] if quick else \
-        [(b1, b2) for b1 in BASES for b2 in BASES]
+    base_pairs = [(b1, b2) for b1 in BASES for b2 in BASES]
+    if quick:
+        base_pairs = base_pairs[3::9]
     for (b1, b2) in base_pairs:               # every ordered pair of value kinds (dot / tuplet transitions)
         for (k1, k2) in itertools.product(KINDS, repeat=2):
             s1, s2 = (b1, k1[0], k1[1]), (b2, k2[0], k2[1])
@@ -768,7 +786,7 @@ def run(tier, seed):
         for o in OCTAVES:
             bar_case(("C", (4, 4), [([(name, o)], (Fraction(4), 0, (1, 1)), 4),
                                     ([(name, o), ("G", 8) if o < 5 else ("D", 0)], (Fraction(2), 1, (1, 1)), 4 / 3.0)]))
-    for _ in range(400 if quick else 12000):  # random bars
+    for _ in range(N_BAR):  # random bars
         bar_case(rnd_bar_desc(rnd, V, meters + big_meters * 4), rnd.random() < 0.7, rnd.random() < 0.7,
                  rest_as_empty=rnd.random() < 0.3)
 
@@ -811,7 +829,7 @@ def run(tier, seed):
     for (m1, m2) in itertools.product(mlist, repeat=2):         # ordered meter pairs, then back / stay
         m3 = m1 if (m1[0] + m2[0]) % 2 else m2
         track_case([("C", m1, []), ("C", m2, [(None, (Fraction(128), 0, (1, 1)), 128)]), ("C", m3, [])])
-    for _ in range(250 if quick else 6000):                     # random tracks; keys / meters repeat often
+    for _ in range(N_TRACK):                     # random tracks; keys / meters repeat often
         nk = rnd.sample(KEYS, 2) + ["C"]
         nm = rnd.sample(meters + big_meters, 2) + [(4, 4)]
         bars = []
@@ -823,7 +841,7 @@ def run(tier, seed):
     # ---------------- compositions (LilyPond + MusicXML)
     gl, gx = "lilypond.from_Composition", "musicxml.from_Composition"
 
-    def comp_case(desc, ly=True, xml=True, xml_fn=None, check_meta=True):
+    def comp_case(desc, ly=True, xml=True, check_meta=True):
         ok, cc = R.guard(gx, "xml-well-formed", desc, lambda: B.composition(desc))
         if not ok:
             return
@@ -890,6 +908,7 @@ def run(tier, seed):
             q = ([("E", 4)], (Fraction(4), 0, (1, 1)), 4)
             comp_case(cdesc([tdesc([("C", m, [([("F#", 3)], spec, number)]),
                                     ("C", m, [(None, spec, number), q]),
+                                    ("C", m, [q, ([], spec, number)]),
                                     ("C", m, [q, ([("Bb", 2), ("D", 3)], spec, number)])])]), ly=False)
     # chord-size sequences: every sequence of length 1..3 (quick) / 1..4 over sizes {rest, 1, 2, 3, 5}
     sizes = (0, 1, 2, 3, 5)
@@ -897,7 +916,7 @@ def run(tier, seed):
         for seq in itertools.product(sizes, repeat=ln):
             ents = []
             for i, k in enumerate(seq):
-                notes = None if k == 0 else [("CEGBD"[j], 3 + i % 2 + j // 3) for j in range(k)]
+                notes = (None if i % 2 == 0 else []) if k == 0 else [("CEGBD"[j], 3 + i % 2 + j // 3) for j in range(k)]
                 ents.append((notes, (Fraction(8), 0, (1, 1)), 8))
             comp_case(cdesc([tdesc([("C", (4, 4), ents)])]), ly=False)
     # plain-valued bars mixing all bases (divisions must suit every entry of the measure)
@@ -907,7 +926,7 @@ def run(tier, seed):
             comp_case(cdesc([tdesc([("C", (8, 4), ents), ("C", (8, 4), list(reversed(ents)))])]), ly=False)
     # random compositions
     inst_names = TITLES + ["Piano", "Guitar"]
-    for it in range(150 if quick else 4000):
+    for it in range(N_COMP):
         mode = it % 4      # 0: plain values only, 1: values >= whole note base (no longa/breve), 2/3: everything
         specs = PLAIN_SPECS if mode == 0 else SHORT_SPECS if mode == 1 else SPECS
         tracks = []
@@ -920,7 +939,7 @@ def run(tier, seed):
 
     # ---------------- MusicXML wrappers from_Track / from_Bar (a composition of one track / one bar)
     gw = "musicxml.from_Track/from_Bar"
-    for it in range(40 if quick else 600):
+    for it in range(N_WRAP):
         d = rnd_bar_desc(rnd, V, big_meters, PLAIN_SPECS if it % 2 else SHORT_SPECS, maxlen=5, empty_p=0.0)
         b, bm = B.bar(d[0], d[1], d[2])
         if not bm["entries"]:
@@ -953,7 +972,7 @@ def run(tier, seed):
              "empty bars, MusicXML 30 keys x %d meters, 35 names x 9 octaves x chord positions, every value x form, all "
              "chord-size sequences up to length %d over {rest,1,2,3,5}, all 2..%d-subsets of the 8 plain bases, %d random "
              "compositions (0-3 tracks x 0-4 bars x <= 6 entries); seed %d"
-             % (300 if quick else 6000, len(meters), len(base_pairs), 3 if quick else 4, 400 if quick else 12000,
-                len(mlist) ** 2, 250 if quick else 6000, len(TITLES), len(meters), 3 if quick else 4, 3 if quick else 4,
-                150 if quick else 4000, seed),
+             % (N_NC, len(meters), len(base_pairs), 3 if quick else 4, N_BAR,
+                len(mlist) ** 2, N_TRACK, len(TITLES), len(meters), 3 if quick else 4, 3 if quick else 4,
+                N_COMP, seed),
         exhaustive=False)
